@@ -201,16 +201,21 @@ def check_provenance(ctx):
         for i, (st, what) in enumerate(muts):
             loops = _enclosing_loops(f, st)
             tok_loop = None
+            tok_name = None
             for lp in loops:
                 if isinstance(lp, ast.For):
                     it = lp.iter
+                    tgt = lp.target
+                    if isinstance(it, ast.Call) and call_name(it) == 'enumerate' and it.args and isinstance(tgt, ast.Tuple) and len(tgt.elts) == 2:
+                        it, tgt = it.args[0], tgt.elts[1]
                     base = it.value if isinstance(it, ast.Subscript) else it
-                    if isinstance(base, ast.Name) and base.id == probe_param and isinstance(lp.target, ast.Name):
+                    if isinstance(base, ast.Name) and base.id == probe_param and isinstance(tgt, ast.Name):
                         tok_loop = lp
+                        tok_name = tgt.id
             ok = tok_loop is not None
             why = 'not inside a loop over the probe tokens `%s`' % probe_param
             if ok:
-                tok = tok_loop.target.id
+                tok = tok_name
                 # the inserted value derives from <index>.probe(tok)
                 src = None
                 if isinstance(what, ast.Call) and call_name(what) == 'probe':
@@ -226,8 +231,7 @@ def check_provenance(ctx):
             ctx.check('R-CAND/provenance', f, 'insertion %d' % (i + 1), ok,
                       'candidate insertion `%s` is %s: a pair without a common token could become a candidate'
                       % (U(st).split('\n')[0][:70], why), st, sample='inside for %s in %s: ... %s.probe(%s)' % (
-                          tok_loop.target.id if tok_loop is not None else '?', probe_param, index_param,
-                          tok_loop.target.id if tok_loop is not None else '?'))
+                          tok_name or '?', probe_param, index_param, tok_name or '?'))
     # index side: postings are appended per token of the row; probe() reads the same map
     for cls, (fpath, ipath, icls) in sorted(FILTERS.items()):
         if icls is None or icls == 'SizeIndex':
@@ -244,6 +248,8 @@ def check_provenance(ctx):
                     key = recv.args[0]
                 elif isinstance(recv, ast.Subscript) and U(recv.value) == 'self.index':
                     key = recv.slice
+                elif isinstance(recv, ast.Call) and call_name(recv) == 'setdefault' and U(recv.func.value) == 'self.index' and recv.args:
+                    key = recv.args[0]
                 if key is not None:
                     posts.append((node, key))
         if not posts:
@@ -409,6 +415,10 @@ def check_prune(ctx):
         raise AnalysisError('%s: probe loop is not nested in the token loop' % f.where)
     # the probe position counter: the name advanced in the outer loop body
     counters = [n.target.id for n in outer[-1].body if isinstance(n, ast.AugAssign) and isinstance(n.target, ast.Name)]
+    if not counters and isinstance(outer[-1].iter, ast.Call) and call_name(outer[-1].iter) == 'enumerate' \
+            and isinstance(outer[-1].target, ast.Tuple) and isinstance(outer[-1].target.elts[0], ast.Name) \
+            and len(outer[-1].iter.args) == 1:
+        counters = [outer[-1].target.elts[0].id]      # for pos, token in enumerate(prefix tokens)
     if len(counters) != 1:
         raise AnalysisError('%s: expected one position counter advanced per probe token' % f.where)
     ppos = counters[0]
